@@ -19,7 +19,7 @@ SCOPE = {
              'all sequences of <=3 operations over f(0) f(1) f(2.4) dump() archived(False); 7 continuations of <=3 operations (calls incl. new '
              'and float arguments, clear, load, dump, archived(True))',
     'thorough': 'as quick with prefixes of <=4 operations',
-    'both tiers': 'plus: file (pickle/json) and dir (pickle/json) archives as shared storage across the round trip; a cached METHOD (ignore self) whose function dill copies by value, 3 keymaps x 3 ignore specifications, lock-step over 8 calls with explicit instances',
+    'both tiers': 'plus: file (pickle/json) and dir (pickle/json) archives as shared storage across the round trip; a cached METHOD (ignore self) whose function dill copies by value, 3 keymaps x 3 ignore specifications, lock-step over 8 calls with explicit instances; keymaps configured with the SENTINEL object of klepto.keymaps (hashmap with the builtin hash, raw keymap), prefixes of <=2 operations',
 }
 SCOPE = {t: SCOPE[t] + '; ' + SCOPE['both tiers'] for t in ('quick', 'thorough')}
 ASSUMPTIONS = ['bounded scope, not a proof', 'dill copies closures by value and preserves sharing between closure cells (assumed contract of dill: '
@@ -53,7 +53,9 @@ def build(modname, clsname, purge, arch, kmkind, tol):
         cache = A.dir_archive(arch.split(':', 1)[1], cached=True)
     else:
         cache = A.null_archive(cached=True)
-    kw = {'cache': cache, 'keymap': KM.keymap() if kmkind == 'raw' else KM.stringmap(), 'tol': tol}
+    km = {'raw': KM.keymap, 'string': KM.stringmap, 'hashsentinel': lambda: KM.hashmap(sentinel=KM.SENTINEL),
+          'rawsentinel': lambda: KM.keymap(sentinel=KM.SENTINEL)}[kmkind]()
+    kw = {'cache': cache, 'keymap': km, 'tol': tol}
     if clsname not in ('no_cache', 'inf_cache'):
         kw.update(maxsize=2, purge=purge)
     return cls(**kw)(F)
@@ -95,6 +97,11 @@ def units(tier, seed):
                 for arch in ('none', 'dict'):
                     for (kmkind, tol) in (('raw', None), ('string', 1)):
                         us.append((modname, cls, purge, arch, kmkind, tol, 4 if tier == 'thorough' else 3))
+            # keymaps configured with the module's sentinel objects: the keys (or their builtin hashes) depend on the IDENTITY of
+            # the sentinel, which the round trip has to preserve
+            us.append((modname, cls, False, 'none', 'hashsentinel', None, 2))
+            if modname == 'klepto._cache':
+                us.append((modname, cls, False, 'dict', 'rawsentinel', None, 2))
             us.append((modname, cls, False, 'filejson', 'string', None, 0))
             us.append((modname, cls, False, 'method', 'string', None, 0))
             if modname == 'klepto._cache' or cls in ('lru_cache', 'no_cache'):
